@@ -1,0 +1,13 @@
+//go:build verif
+
+// Contracts for the lvc verifier (comment-only file, compiled only with -tags verif).
+
+package ringqp
+
+// ringqp.Ring methods that only delegate to RingQ / RingP are executed inline by Engine B.
+//@ afunc Ring.ExtendBasisSmallNormAndCenter
+//@   trusted ring-element view: the small-norm integer polynomial is written, centred, on both bases (coefficient-level contract: property C02)
+//@   requires iscoef(polyInQ) && mexp(polyInQ) == 0
+//@   assigns polyOutQ, polyOutP
+//@   ensures val(polyOutQ) == old(val(polyInQ)) && val(polyOutP) == old(val(polyInQ))
+//@   ensures mexp(polyOutQ) == 0 && mexp(polyOutP) == 0 && dom(polyOutQ) == 0 && dom(polyOutP) == 0
